@@ -558,6 +558,41 @@ func drawCase(t *rapid.T) Case {
 		}
 		tree = map[string]any{"rows": arr, "other": tree}
 	}
+	if rapid.IntRange(0, 5).Draw(t, "longkey") == 0 {
+		// a member name (much) longer than its neighbours: the writers pad keys and cells from
+		// fixed tables of blanks (128 of them), lengths around that and beyond; names of control
+		// characters, quotes or '<' grow by a factor when they are encoded
+		n := rapid.SampledFrom([]int{126, 127, 128, 129, 130, 131, 200, 300}).Draw(t, "longlen")
+		var key string
+		switch rapid.IntRange(0, 3).Draw(t, "longkind") {
+		case 0, 1:
+			key = strings.Repeat("k", n)
+		case 2:
+			key = strings.Repeat("\x01", n/6+1)
+		default:
+			key = strings.Repeat("<\"", n/4+1)
+		}
+		val := gx.Scalar(t, gx.TreeOpts{})
+		placed := false
+		if rapid.Bool().Draw(t, "longinrow") {
+			if m, ok := tree.(map[string]any); ok {
+				if rows, ok := m["rows"].([]any); ok && len(rows) > 0 {
+					if r, ok := rows[rapid.IntRange(0, len(rows)-1).Draw(t, "longrow")].(map[string]any); ok {
+						r[key] = val
+						placed = true
+					}
+				}
+			}
+		}
+		if !placed {
+			if m, ok := tree.(map[string]any); ok {
+				m[key] = val
+				m["id"] = int64(1)
+			} else {
+				tree = map[string]any{"id": tree, key: val, "b": []any{map[string]any{"x": int64(1), key: val}, map[string]any{"x": int64(2)}}}
+			}
+		}
+	}
 	return Case{Tree: wx.Enc(tree), Opt: wx.DrawOpt(t, true), Gen: rapid.IntRange(0, 3).Draw(t, "gen") == 0}
 }
 
